@@ -108,9 +108,9 @@ class Lexer:
         self.dot_property_pattern = rf"\.(?P<G_PROP>{self.key_pattern})"
 
         self.slice_list_pattern = (
-            r"(?P<G_LSLICE_START>\-?\d*)\s*"
-            r":\s*(?P<G_LSLICE_STOP>\-?\d*)\s*"
-            r"(?::\s*(?P<G_LSLICE_STEP>\-?\d*))?"
+            r"(?P<G_LSLICE_START>\-?[0-9]*)\s*"
+            r":\s*(?P<G_LSLICE_STOP>\-?[0-9]*)\s*"
+            r"(?::\s*(?P<G_LSLICE_STEP>\-?[0-9]*))?"
         )
 
         # /pattern/ or /pattern/flags
@@ -141,8 +141,8 @@ class Lexer:
             (TOKEN_LIST_SLICE, self.slice_list_pattern),
             (TOKEN_FUNCTION, self.function_pattern),
             (TOKEN_DOT_PROPERTY, self.dot_property_pattern),
-            (TOKEN_FLOAT, r"-?\d+\.\d*(?:[eE][+-]?\d+)?"),
-            (TOKEN_INT, r"-?\d+(?P<G_EXP>[eE][+\-]?\d+)?\b"),
+            (TOKEN_FLOAT, r"-?[0-9]+\.[0-9]*(?:[eE][+-]?[0-9]+)?"),
+            (TOKEN_INT, r"-?[0-9]+(?P<G_EXP>[eE][+\-]?[0-9]+)?\b"),
             (TOKEN_DDOT, r"\.\."),
             (TOKEN_AND, self.logical_and_pattern),
             (TOKEN_OR, self.logical_or_pattern),
